@@ -1146,7 +1146,7 @@ def _mon_tw(case, out):
                     res.bad.append("second window tick at t=%d returned %r" % (t, o))
                 continue
             if o != "ok":
-                res.bad.append("%s returned %r" % (ln, o))
+                res.bad.append("twindow-op: a window operation that has to succeed was refused or failed: %s returned %r" % (ln, o))
             lmt = t
             pending = None
             if op in ("wclear", "wclearpush"):
